@@ -141,9 +141,9 @@ class StdModel:
             if name == 'operator*':
                 return '(*%s)' % objp
             if name == 'operator++':
-                return '(&(%s(*%s)))' % ('++', objp) if not args else '((*%s)++)' % objp
+                return '(++(*%s), %s)' % (objp, objp) if not args else '((*%s)++)' % objp
             if name == 'operator--':
-                return '(&(%s(*%s)))' % ('--', objp) if not args else '((*%s)--)' % objp
+                return '(--(*%s), %s)' % (objp, objp) if not args else '((*%s)--)' % objp
             if name == 'operator+=':
                 return '(*%s += %s, %s)' % (objp, a[0], objp)
             if name == 'operator-=':
@@ -223,14 +223,17 @@ class StdModel:
                 self.used.add('std::string()')
                 return 'xv_str_init(%s)' % target
             if len(args) == 1 and self.type(strip_cv(dq(args[0]['type'])).rstrip('&'), em) == 'xv_str':
-                self.used.add('std::string(copy/move)')
+                if n.get('elidable') or args[0].get('valueCategory') == 'xvalue':
+                    self.used.add('std::string(move / elided copy) = transfer of the storage')
+                    return '(*%s = *%s)' % (target, em.addr(args[0]))
+                self.used.add('std::string(copy)')
                 return 'xv_str_copy(%s, %s)' % (target, em.addr(args[0]))
             raise Unsupported('std::string constructor ' + n.get('ctorType', {}).get('qualType', ''))
         if t.startswith('std::'):
             if len(args) == 1 and norm_t(dq(args[0]['type'])).rstrip('&') == norm_t(t):
                 return '(*%s = %s)' % (target, em.rv_or_lv(args[0]))
-            if len(args) == 0 and self.type(t, em) == 'xv_empty':
-                return '((void)0)'
+            if len(args) == 0 and (self.type(t, em) == 'xv_empty' or (self.type(t, em) or '').startswith('xv_arr_')):
+                return '((void)0)'   # trivial default construction: members stay uninitialised, as in C++
             raise Unsupported('std construct ' + tstr)
         return None
 
